@@ -137,6 +137,11 @@ def run(ctx):
                 from_live = any(o.kind in ("place", "param") and ("." + fld) in o.proj for o in os_) and any(o.kind == "call" and o.call.name == "pgcat::pool::get_pool" for o in os_)
                 r2.check(from_live, "rebuilt-pool-keeps-gate:" + fld, "the pool built in place of a live one shares the live pool's %s (a fresh one only when there was none)" % fld,
                          "from_config gives a rebuilt pool a fresh `%s`: after PAUSE, a RELOAD that changes the pool's definition, RESUME - the clients held before the reload wait on the old gate for ever, and the pause itself is lost for new transactions" % fld, st["span"])
+    # ... and the gate is one pool's: allocated inside the per-user loop of from_config (hoisted, PAUSE db,alice holds bob's clients and RESUME db,alice lets them into bob's paused pool)
+    from common import pool_cell_findings
+    for f_, ok_, al_ in pool_cell_findings(F, gate | {"paused_waiter"}):
+        r2.check(ok_, "gate-per-user-pool:" + f_, "a fresh `%s` (%s) is allocated inside the per-user loop that builds the pool" % (f_, ", ".join(al_)),
+                 "`%s` is allocated outside the per-user loop of from_config: the pools of all users of a [pools.X] section share one gate" % f_)
     r2.check(fresh >= 2, "per-pool-gate", "every ConnectionPool is built with its own flag and Notify", "ConnectionPool construction no longer creates its own pause flag / Notify")
     # ---------------- R3
     r3 = ctx.rule("C16-R3", "every checkout in Client::handle is preceded, in the same idle-loop iteration, by wait_paused(), and nothing is sent to a server before it", floor=2)
